@@ -129,11 +129,18 @@ def run(ctx, scale=1.0):
         for schema, values in families(rng):
             check_case(drv, schema, list(values) + [10 ** 400, 2 ** 1024, 1e308, -1e308, 5e-324, 2 ** 53 + 1, core.NP], out, stats)
         # unusual property names / titles (parse side)
-        for name in UNICODE + ["__dict__", "class", "_dict", "1", "a.b", "\u0001", "", "￿"]:
+        for name in UNICODE + ["__dict__", "class", "_dict", "1", "a.b", "\u0001", "", "￿", "__module__", "__slots__", "__typename__", "__version__",
+                              "--verbose--", "  padded  ", "__", "____", "__x", "_x_", "{0}", "{", "}", "/pets/{petId}", "%s", "%(a)s", "{a!r}", "{0.__class__}"]:
             if core.has_surrogate(name):
                 continue
             schema = {"type": "object", "title": "T" + name, "properties": {name: {"type": "string"}}, "required": [name]}
             check_case(drv, schema, [{name: "x"}, {}, {name: 1}], out, stats)
+            # the same name where it ends up in an error message: as an unexpected key, a missing required name, a missing dependency
+            check_case(drv, {"properties": {"ok": {}}, "additionalProperties": False}, [{name: 1}, {"ok": 1, name: None}], out, stats)
+            check_case(drv, {"type": "object", "title": "Closed", "properties": {"ok": {}}, "additionalProperties": False}, [{name: 1}], out, stats)
+            check_case(drv, {"required": [name]}, [{}, {"other": 1}], out, stats)
+            check_case(drv, {"dependencies": {"a": [name]}}, [{"a": 1}], out, stats)
+            check_case(drv, {"propertyNames": {"maxLength": 0}}, [{name: 1}], out, stats)
         for m in (0.5, 1e-300, 5e-324, 1e300, 3, 10 ** 400, 2 ** 60 + 1):
             for x in (1e308, 10 ** 400, 10 ** 30, 7, 0.1, 2 ** 1024, -1e308):
                 check_case(drv, {"multipleOf": m}, [x], out, stats)
